@@ -9,6 +9,9 @@ Decided clauses:
   C06.d  `required` is moved to required_args, never dropped; who may remove a
          required key; validate enforces required_args unless explicitly skipped
   C06.e  init_args of a class go through the parser built for that class
+  C06.f  the key-prefix tests behind the two permitted skips (_is_branch_key and
+         check_values' whole-parent test) end with the separator: only whole key
+         components match
 Not decided: that every position of every configuration tree is covered.
 """
 
@@ -286,6 +289,28 @@ def run(ctx: Ctx) -> int:
         ctx.oblige("C06.e", okv, s, f"init_args stored come from {how}" if okv else "init_args are stored without passing through the class's own parser (unknown / ill-typed init_args would be accepted)", fn=act)
     ctx.floor("C06.e", n_e, 3)
 
+    # ---------------- C06.f ---------------------------------------------------
+    # dotted-key prefix tests of the two permitted skips: `a.startswith(b)` with a computed b decides "a is nested under b" only when b ends
+    # with the separator; without it `model.lay` passes for `model.layers`, `optim` for `optimizer.lr`
+    n_pref = 0
+    for fq, fn in (("_actions:_is_branch_key", ctx.func("_actions:_is_branch_key")), ("_core:ArgumentParser.validate.check_values", cv)):
+        for c in calls_in(fn):
+            if call_leaf(c) != "startswith" or not isinstance(c.func, ast.Attribute) or len(c.args) != 1:
+                continue
+            a0 = c.args[0]
+            if isinstance(a0, ast.Constant) or (isinstance(a0, ast.Tuple) and all(isinstance(e, ast.Constant) for e in a0.elts)):
+                continue
+            n_pref += 1
+            ok = _ends_with_separator(fn, a0)
+            ctx.oblige(
+                "C06.f",
+                ok,
+                c,
+                "the computed prefix ends with a separator: only whole key components match" if ok else "a key prefix test without the trailing separator: a truncated spelling of a defined key (e.g. `model.lay` for `model.layers`) is taken for one of its parents and escapes the unknown-key check",
+                fn=fn,
+            )
+    ctx.floor("C06.f-prefix-tests", n_pref, 2)
+
     return ctx.finish(
         explanation=(
             "Path and ownership checks: in validate.check_values every path for a key without action raises NSKeyError or takes one of the two documented skips "
@@ -295,6 +320,22 @@ def run(ctx: Ctx) -> int:
         ),
         rule_text="one obligation per rejecting path set / pairing / ownership site; non-trivial = anchored statements exist and the path set is non-empty",
     )
+
+
+def _ends_with_separator(fn: ast.AST, e: ast.AST, depth: int = 0) -> bool:
+    def sep(s) -> bool:
+        return isinstance(s, ast.Constant) and isinstance(s.value, str) and s.value != "" and not (s.value[-1].isalnum() or s.value[-1] == "_")
+
+    if isinstance(e, ast.BinOp) and isinstance(e.op, ast.Add):
+        return sep(e.right)
+    if isinstance(e, ast.JoinedStr):
+        return bool(e.values) and sep(e.values[-1])
+    if isinstance(e, ast.Tuple):
+        return all(_ends_with_separator(fn, x, depth) for x in e.elts)
+    if isinstance(e, ast.Name) and depth < 2:
+        defs = [s for s in walk_local(fn) if isinstance(s, ast.Assign) and any(isinstance(t, ast.Name) and t.id == e.id for t in s.targets)]
+        return len(defs) >= 1 and all(_ends_with_separator(fn, s.value, depth + 1) for s in defs)
+    return False
 
 
 def _anc(node):
